@@ -76,6 +76,9 @@ pub struct SimCore {
     lock_depth: Cell<u32>,
     pub counters: RefCell<std::collections::BTreeMap<&'static str, u64>>,
     net: RefCell<Option<Arc<dyn super::hooks::SimNet>>>,
+    /// fragments popped by transport readers (hook H5): (virtual ms, order, link source address, octets)
+    pub popped: RefCell<Vec<(u64, u64, u16, Vec<u8>)>>,
+    pub record_popped: Cell<bool>,
 }
 
 thread_local! {
@@ -178,6 +181,8 @@ where
             lock_depth: Cell::new(0),
             counters: RefCell::new(Default::default()),
             net: RefCell::new(None),
+            popped: RefCell::new(Vec::new()),
+            record_popped: Cell::new(false),
         });
         CURRENT.with(|c| *c.borrow_mut() = Some(core.clone()));
         let sim = Sim { core: core.clone() };
@@ -376,6 +381,14 @@ impl SimCore {
 
     pub fn sched_rng<R>(&self, f: impl FnOnce(&mut Rng) -> R) -> R {
         f(&mut self.sched.borrow_mut())
+    }
+
+    pub fn fragment_popped(&self, source: u16, data: &[u8]) {
+        if self.record_popped.get() {
+            let t = self.now_ms();
+            let order = self.next_order();
+            self.popped.borrow_mut().push((t, order, source, data.to_vec()));
+        }
     }
 
     pub fn lock_point(&self, site: &'static str) {
